@@ -293,6 +293,12 @@ class Recorder:
         self.records = []
         self.on_op = None
 
+    def close_iteration(self, dump):
+        """the state at the end of the loop iteration of _apply_modifications that made the last recorded call (the
+        loop may do more after insert()/delete() return): taken when the next call begins or the loop is left"""
+        if self.records and "iter_after" not in self.records[-1] and "after" in self.records[-1]:
+            self.records[-1]["iter_after"] = dump
+
     def wrap(self):
         import gtirb_rewriting.rewriting as R
 
@@ -301,6 +307,7 @@ class Recorder:
 
         def insert(cache, block, offset, replacement_length, code):
             before = irdump.dump_ir(rec.module, rec.idm, cache)
+            rec.close_iteration(before)
             patch = irdump.dump_patch(code, rec.idm, rec.module)
             op = {"kind": "insert", "block": rec.idm.of(block), "offset": offset, "repl": replacement_length, "patch": patch}
             r = {"before": before, "do": op}
@@ -319,6 +326,7 @@ class Recorder:
 
         def delete(cache, block, offset, length, retarget_to_proxy=False):
             before = irdump.dump_ir(rec.module, rec.idm, cache)
+            rec.close_iteration(before)
             op = {"kind": "delete", "block": rec.idm.of(block), "offset": offset, "length": length, "proxy": bool(retarget_to_proxy)}
             r = {"before": before, "do": op}
             rec.records.append(r)
@@ -343,10 +351,20 @@ def recording(rec):
 
     _, (R, real_insert, real_delete, insert, delete) = rec.wrap()
     R.insert, R.delete = insert, delete
+    real_loop = R.RewritingContext._apply_modifications
+
+    def loop(self, modify_cache, *a, **k):
+        try:
+            return real_loop(self, modify_cache, *a, **k)
+        finally:
+            rec.close_iteration(irdump.dump_ir(rec.module, rec.idm, modify_cache))
+
+    R.RewritingContext._apply_modifications = loop
     try:
         yield rec
     finally:
         R.insert, R.delete = real_insert, real_delete
+        R.RewritingContext._apply_modifications = real_loop
 
 
 def make_patch(asm, constraints=None, get_asm=None):
